@@ -84,6 +84,8 @@ def run(chk, tier):
         docs_blind_identity(chk, prog, prog.config)
         # TypeId values (crate hash) change with the feature set: registration order must be the caller's order, never an order of identities
         c02_sym.check(chk, prog, prog.config, only=set(), helpers=True)
+        from . import common_registry as _cr
+        _cr.check_stateless(chk, prog, prog.config, rule="R15.6")
         if "docs" in feats:
             # "docs changes documentation strings only": the docs-gated setters may differ, but only in the docs slot
             c17.transitions(chk, prog, prog.config, True, only=gated_setters(ref, prog))
